@@ -5,6 +5,7 @@
   filters and the pagination arithmetic are covered by the differential fuzz only (DESIGN §6 C01).
 -/
 import Distill.Props.RenderProps
+import Distill.Proofs.Root
 import Distill.Proofs.Total
 import Distill.Props.FiltersProps
 import Distill.Gen.Inventory
@@ -141,5 +142,38 @@ theorem prefix_slice_total (eq : List UInt8 → List UInt8 → Bool) (str pre : 
 theorem prefix_test_tie :
     Gen.hasPrefixIgnoreCaseBody = ["return len(str) >= len(prefix) && strings.EqualFold(str[:len(prefix)], prefix)"] := by
   decide +kernel
+
+/-! ### which element the distiller works on -/
+
+/-- `Apply` and `NewContentExtractor` are the statements the model of the root selection follows;
+the content node is a freshly created `div` (regenerated statement lists) -/
+theorem apply_bodies_tie : Gen.applyBodies = Gen.applyBodiesExpected := by rfl
+
+theorem apply_shape :
+    (Gen.applyBodiesExpected.lookup "..Apply").map (fun l => (l.drop 1).take 1) =
+      some ["if doc.Type != html.ElementNode { doc = dom.QuerySelector(doc, \"*\") if doc == nil { return nil, errors.New(\"input doesn't have a valid element\") } }"] ∧
+    ((Gen.applyBodiesExpected.lookup "..Apply").map (fun l => l.contains "container := dom.CreateElement(\"div\")" && l.contains "result.Node = container")) = some true ∧
+    (Gen.applyBodiesExpected.lookup "internal/extractor..NewContentExtractor").map (fun l => (l.drop 1).take 2) =
+      some ["document := dom.QuerySelector(root, \"html\")", "if document == nil { document = root }"] := by
+  decide +kernel
+
+/-- **Root validation.** Whatever root the caller hands in — a document, an element, a detached
+fragment, a text or comment node — `Apply` either returns the error or goes on with an element, and
+the document element the extractor converts is an element of the caller's tree.  This is the
+premise `top.isElem` of `text_render_total` and of the converter's theorems. -/
+theorem root_is_element (doc : Node) (docKids : List Node) (r : Node) (h : applyRoot doc docKids = some r) :
+    r.isElem = true ∧ (extractorRoot r).isElem = true :=
+  ⟨applyRoot_isElem doc docKids r h, extractorRoot_isElem r (applyRoot_isElem doc docKids r h)⟩
+
+/-- the error is returned exactly when a non-element root has no element below it -/
+theorem root_error_iff (doc : Node) (docKids : List Node) :
+    applyRoot doc docKids = none ↔ (doc.isElem = false ∧ firstElemL (fun _ => true) docKids = none) := by
+  unfold applyRoot
+  cases h : doc.isElem <;> simp
+
+example : (applyRoot (.other 0 3) [.other 1 10, .elem 2 "html" [] [.elem 3 "body" [] []]]).map Node.id = some 2 := by decide
+example : applyRoot (.other 0 3) [.other 1 10, .text 2 "x"] = none := by decide
+example : (extractorRoot (.elem 0 "div" [] [.elem 1 "p" [] [], .elem 2 "html" [] []])).id = 2 := by decide
+example : (extractorRoot (.elem 0 "html" [] [.elem 1 "body" [] []])).id = 0 := by decide
 
 end Distill.C01
